@@ -154,10 +154,14 @@ func (server *Server) open() error {
 
 	if server.IsPortEnabled() {
 		addr := net.JoinHostPort(server.Addr, strconv.Itoa(server.ConfigPort()))
-		server.portListener, err = net.Listen("tcp", addr)
+		// Keeps the current listener when the port cannot be opened,
+		// e.g. because the server has already been started.
+		var l net.Listener
+		l, err = net.Listen("tcp", addr)
 		if err != nil {
 			return err
 		}
+		server.portListener = l
 		log.Infof("%s/%s (%s) started", PackageName, Version, addr)
 	}
 
@@ -173,10 +177,12 @@ func (server *Server) open() error {
 			server.tlsConfig = tlsConfig
 		}
 		addr := net.JoinHostPort(server.Addr, strconv.Itoa(server.ConfigTLSPort()))
-		server.tlsPortListener, err = net.Listen("tcp", addr)
+		var l net.Listener
+		l, err = net.Listen("tcp", addr)
 		if err != nil {
 			return err
 		}
+		server.tlsPortListener = l
 		log.Infof("%s/%s (%s) started", PackageName, Version, addr)
 	}
 
